@@ -1006,6 +1006,25 @@ func (r *Runtime) checkObjectCoercible(v Value) {
 	}
 }
 
+// floatToInt64Wrap converts a finite float64 to an integer modulo 2^64 (truncating towards zero),
+// as required by ToInt32, ToUint32 and friends. A plain int64(f) is not defined for |f| >= 2^63.
+func floatToInt64Wrap(f float64) int64 {
+	if f >= -9223372036854775808.0 && f < 9223372036854775808.0 {
+		return int64(f)
+	}
+	// |f| >= 2^63, therefore f is an integer: take its low 64 bits from the binary representation
+	b := math.Float64bits(f)
+	exp := int(b>>52&0x7ff) - 1075
+	if exp >= 64 {
+		return 0
+	}
+	m := (b&(1<<52-1) | 1<<52) << uint(exp)
+	if f < 0 {
+		m = -m
+	}
+	return int64(m)
+}
+
 func toInt8(v Value) int8 {
 	v = v.ToNumber()
 	if i, ok := v.(valueInt); ok {
@@ -1015,7 +1034,7 @@ func toInt8(v Value) int8 {
 	if f, ok := v.(valueFloat); ok {
 		f := float64(f)
 		if !math.IsNaN(f) && !math.IsInf(f, 0) {
-			return int8(int64(f))
+			return int8(floatToInt64Wrap(f))
 		}
 	}
 	return 0
@@ -1030,7 +1049,7 @@ func toUint8(v Value) uint8 {
 	if f, ok := v.(valueFloat); ok {
 		f := float64(f)
 		if !math.IsNaN(f) && !math.IsInf(f, 0) {
-			return uint8(int64(f))
+			return uint8(floatToInt64Wrap(f))
 		}
 	}
 	return 0
@@ -1084,7 +1103,7 @@ func toInt16(v Value) int16 {
 	if f, ok := v.(valueFloat); ok {
 		f := float64(f)
 		if !math.IsNaN(f) && !math.IsInf(f, 0) {
-			return int16(int64(f))
+			return int16(floatToInt64Wrap(f))
 		}
 	}
 	return 0
@@ -1099,7 +1118,7 @@ func toUint16(v Value) uint16 {
 	if f, ok := v.(valueFloat); ok {
 		f := float64(f)
 		if !math.IsNaN(f) && !math.IsInf(f, 0) {
-			return uint16(int64(f))
+			return uint16(floatToInt64Wrap(f))
 		}
 	}
 	return 0
@@ -1114,7 +1133,7 @@ func toInt32(v Value) int32 {
 	if f, ok := v.(valueFloat); ok {
 		f := float64(f)
 		if !math.IsNaN(f) && !math.IsInf(f, 0) {
-			return int32(int64(f))
+			return int32(floatToInt64Wrap(f))
 		}
 	}
 	return 0
@@ -1129,7 +1148,7 @@ func toUint32(v Value) uint32 {
 	if f, ok := v.(valueFloat); ok {
 		f := float64(f)
 		if !math.IsNaN(f) && !math.IsInf(f, 0) {
-			return uint32(int64(f))
+			return uint32(floatToInt64Wrap(f))
 		}
 	}
 	return 0
